@@ -384,8 +384,34 @@ Definition represent_json (o : eobj) (x : eout) : res pv :=
    hold from before ([prior]) is only overwritten, never read, by perform_encrypt and represent_* *)
 Definition perform_encrypt_obj (prior : list (str * bytes)) (g : registry) (o : eobj) (d : edraw) : res eout :=
   perform_encrypt g o d.
-Definition encrypt_json_obj (prior : list (str * bytes)) (g : registry) (o : eobj) (d : edraw) : res pv :=
-  do x <- perform_encrypt_obj prior g o d; represent_json o x.
+
+(* The ephemeral-key state of a recipient object across encryptions (JWEKeyAgreement.prepare_ephemeral_key):
+   [es_cur] = recipient.ephemeral_key before the call, [es_generated] = recipient._ephemeral_key_generated (the key
+   was generated by an earlier encryption, not set by the caller), [es_draw] = what generate_key returns in this call.
+   A key is generated when there is none or when the present one was library-generated; a caller-set key is kept. *)
+Record ephstate := { es_cur : option (key * pv); es_generated : bool; es_draw : option (key * pv) }.
+Definition eph_select (s : ephstate) : option (key * pv) :=
+  match es_cur s with
+  | Some k => if es_generated s then es_draw s else Some k
+  | None => es_draw s
+  end.
+Definition eph_generated_after (s : ephstate) : bool :=
+  match es_cur s with Some _ => es_generated s | None => true end.
+Definition set_eph (r : recip) (e : option (key * pv)) : recip :=
+  {| r_header := r_header r; r_ek := r_ek r; r_key := r_key r; r_sender := r_sender r; r_eph := e |}.
+Fixpoint apply_eph (rs : list recip) (es : list ephstate) : list recip :=
+  match rs, es with
+  | r :: rs', s :: es' => set_eph r (eph_select s) :: apply_eph rs' es'
+  | _, _ => rs
+  end.
+Definition with_eph (o : eobj) (es : list ephstate) : eobj :=
+  {| e_ser := e_ser o; e_prot := e_prot o; e_unprot := e_unprot o; e_aad := e_aad o; e_plain := e_plain o;
+     e_recips := apply_eph (e_recips o) es |}.
+
+Definition encrypt_json_obj (prior : list (str * bytes)) (es : list ephstate) (g : registry) (o : eobj) (d : edraw)
+  : res pv :=
+  let o' := with_eph o es in
+  do x <- perform_encrypt_obj prior g o' d; represent_json o' x.
 
 Definition encrypt_compact (g : registry) (o : eobj) (d : edraw) : res bytes :=
   do x <- perform_encrypt g o d; represent_compact x.
